@@ -275,6 +275,19 @@ class Rat:
     def is_const(self):
         return self.n.is_const() and self.d.is_const()
 
+    def approx_equals(self, o, rtol=1e-12):
+        """coefficient-wise comparison of the cross-multiplied forms within a
+        relative tolerance (for constants that the compiler folded inexactly)."""
+        o = _rat(o)
+        a, b = self.n * o.d, o.n * self.d
+        scale = max([abs(c) for c in a.t.values()] + [abs(c) for c in b.t.values()] + [Fraction(0)])
+        if scale == 0:
+            return True
+        for m in set(a.t) | set(b.t):
+            if abs(a.t.get(m, 0) - b.t.get(m, 0)) > Fraction(rtol) * scale:
+                return False
+        return True
+
     def key(self):
         return (self.n.key(), self.d.key())
 
